@@ -135,11 +135,11 @@ func runC08(c *Ctx, r *Report) {
 				continue
 			}
 			nr++
-			if cb, isc := constBool(ret.Results[1]); isc && !cb {
+			if cb, isc := constBool(retResult(ret, 1)); isc && !cb {
 				r.ok(relName(scan)+":return not-cancelled", ret.Pos(), scan, "return with cancelled=false")
 				continue
 			}
-			cn, isConst := ret.Results[0].(*ssa.Const)
+			cn, isConst := retResult(ret, 0).(*ssa.Const)
 			r.check(isConst && cn.IsNil(), relName(scan)+":return cancelled", ret.Pos(), scan, "a return that may report cancelled=true carries a nil merger",
 				"a cancelled scan returns a (partial) merger")
 		}
